@@ -238,10 +238,12 @@ class Dataset:
                     new_ranking.append(new_bucket)
             if len(new_ranking) > 0:
                 new_rankings.append(Ranking(new_ranking))
-        # the mapping element / id must be updated by removing the elements that should be removed
+        # an element that is not in the dataset cannot be removed. The dataset is left untouched when the removal is
+        # refused (unknown element, or no element left): nothing is modified before the new rankings are analysed
         for element_to_remove in elements_to_remove:
-            self._mapping_element_id.pop(element_to_remove)
-        # the features of the dataset must be re-computed after removing some elements
+            if element_to_remove not in self._mapping_element_id:
+                raise KeyError(element_to_remove)
+        # the features of the dataset, and the mappings element / id, are re-computed after removing some elements
         self._rankings, self._is_complete, self._without_ties = self._analyse_rankings(new_rankings)
 
     @staticmethod
